@@ -678,9 +678,69 @@ def check(run):
             if well_conditioned(c):
                 tie_cases.append([c])
                 break
-    for cs in tie_cases:
-        i = impl.add(G.impl_line(cs)); m = mod.add(G.model_line(cs))
+    # scales of the data: every length of the system (coordinates, cell, cut-offs) multiplied by 1e-4 .. 1e4
+    for comp in ("distance", "distanceVec", "distanceZ", "distanceXY", "distanceInv", "gyration", "inertia", "angle", "dihedral",
+                 "coordNum", "selfCoordNum", "groupCoord", "hBond", "dipoleMagnitude", "cartesian"):
+        for k in range(2 * scale):
+            c = gen_until(r, comp, generic=(k % 2 == 1))
+            if c is None:
+                continue
+            sc = r.choice([1e-4, 1e-2, 1e2, 1e4]) if k % 2 == 0 else 2.0 ** r.choice([-20, -10, 10, 20])
+            c["atoms"] = [[a[0], a[1]] + [x * sc for x in a[2:5]] for a in c["atoms"]]
+            if c.get("cell"):
+                c["cell"] = [x * sc for x in c["cell"]]
+            pr = c["params"]
+            if "r0" in pr:
+                pr["r0"] = pr["r0"] * sc
+            if pr.get("r0v") is not None:
+                pr["r0v"] = [x * sc for x in pr["r0v"]]
+            pr.pop("tol", None)
+            c["scaled"] = sc
+            tie_cases.append([c])
+    for n_t, cs in enumerate(tie_cases):
+        il = G.impl_line(cs)
+        if n_t % 9 == 4:
+            il = "EF" + il[1:]            # the same configuration read from a file
+        i = impl.add(il); m = mod.add(G.model_line(cs))
         jobs.append(("tie", cs, i, m))
+    # sessions: (a) a second variable on the same atoms is deleted, (b) a rejected configuration in the middle
+    for k in range(10 * scale):
+        ca = gen_until(r, r.choice(HIST_SCALAR), generic=(k % 2 == 1), dup=0.1)
+        if ca is None:
+            continue
+        ca["params"].pop("tol", None)
+        cb = None
+        for _ in range(40):
+            comp = r.choice(HIST_SCALAR); prb = gen_params(r, comp, False); prb.pop("tol", None)
+            if comp in ("distanceZ", "distanceXY") and prb.get("axis") is None:
+                prb["axis"] = [0.0, 0.0, 1.0]
+            grp = [list(g) for g in ca["groups"]][:NGROUPS[comp]] if (len(ca["groups"]) >= NGROUPS[comp] and comp not in DISJOINT and r.random() < 0.5) else \
+                G.gen_groups(r, len(ca["atoms"]), NGROUPS[comp], disjoint=(comp in DISJOINT), minsize=2 if comp in ("selfCoordNum", "gyration", "inertia", "dipoleMagnitude") else 1, dup=0.1)
+            cb = {"comp": comp, "pbc": ca["pbc"], "params": prb, "groups": grp, "atoms": ca["atoms"], "cell": ca["cell"]}
+            if well_conditioned(cb):
+                break
+            cb = None
+        if cb is None:
+            continue
+        moved = None
+        for _ in range(30):
+            mv = [[a[0], a[1]] + [x + r.gauss(0, 0.3) for x in a[2:5]] for a in ca["atoms"]]
+            if well_conditioned(dict(ca, atoms=mv)) and well_conditioned(dict(cb, atoms=mv)):
+                moved = mv; break
+        if moved is None:
+            continue
+        conf2 = ";".join(G.config_of([ca], "c") + G.config_of([cb], "d"))
+        mode = "delete" if k % 2 == 0 else "rejected"
+        if mode == "delete":
+            lines = ["E " + " ".join(G.sys_tokens(ca)) + " | " + conf2, "D d", G.pos_line(moved)]
+            mlines = [G.model_line([ca]), G.model_line([cb]), G.model_line([dict(ca, atoms=moved)])]
+        else:
+            bad = r.choice(["colvar {;  name bad;  distance {;    group1 {;      atomNumbers 1 %d;    };    group2 {;      atomNumbers 2;    };  };}" % (len(ca["atoms"]) + 5),
+                            "colvar {;  name bad;  distance {;    group1 {;      atomNumbers 1;    };    group2 {;      atomNumbers 2;    };    noSuchKeyword 3;  };}",
+                            "colvar {;  name c;  distance {;    group1 {;      atomNumbers 1;    };    group2 {;      atomNumbers 2;    };  };}"])
+            lines = [G.impl_line([ca]), "C | " + bad, G.pos_line(moved)]
+            mlines = [G.model_line([ca]), G.model_line([dict(ca, atoms=moved)])]
+        jobs.append(("session", {"mode": mode, "i": [impl.add(l) for l in lines], "m": [mod.add(l) for l in mlines], "ca": ca, "cb": cb}, None, None))
     # arithmetic path variables (aspath, azpath) in Cartesian space: value model
     sdirp = os.path.join(V.BUILD, "scratch", "C02paths"); os.makedirs(sdirp, exist_ok=True)
     for comp in ("aspath", "azpath"):
@@ -750,7 +810,7 @@ def check(run):
         if c is None:
             continue
         pr = c["params"]; pr["tol"] = r.choice([0.001, 0.0078125, 0.05]); pr.pop("center", None)
-        pr["plfreq"] = r.choice([2, 3, 5])
+        pr["plfreq"] = r.choice([2, 3, 5, 6, 7])
         g2ids = set(G.dedup(c["groups"][1]))
         def far(atoms, off):
             return [[a[0], a[1], a[2] + (off if (i + 1) in g2ids else 0.0), a[3], a[4]] for i, a in enumerate(atoms)]
@@ -771,7 +831,7 @@ def check(run):
                     ok = False
                 frames.append(fr)
             runs.append(frames)
-            starts.append(0 if j == 0 else r.choice([1, 2, 3, 4, 7, 11, 13, 10, 6]))
+            starts.append(0 if j == 0 else r.choice([1, 2, 3, 4, 7, 11, 13, 10, 6, 2**31 + 3, 2**32 + 7, 2**53 + 1, 2**62 + 5]))
         if not ok:
             continue
         idx = []; fresh = []
@@ -803,7 +863,7 @@ def check(run):
         runs = [[spread, spread], [c["atoms"], c["atoms"]]] if k % 2 == 0 else [[c["atoms"], c["atoms"]], [spread, spread], [c["atoms"]]]
         if not all(well_conditioned(dict(c, atoms=fr)) for frames in runs for fr in frames):
             continue
-        starts = [0] + [r.choice([1, 2, 3, 4, 7, 11, 13]) for _ in runs[1:]]
+        starts = [0] + [r.choice([1, 2, 3, 4, 7, 11, 13, 2**31 + 1, 2**32 + 5, 2**53 + 3, 2**62 + 1]) for _ in runs[1:]]
         idx = []
         for j, frames in enumerate(runs):
             for f, fr in enumerate(frames):
@@ -984,6 +1044,8 @@ def check(run):
                                   obj["listing"], obj["listing"][0], obj["entries"][obj["listing"][0]], a[:3] if a else iout[obj["i"][1]][:80]), rep)
             if a is not None and b is not None and a != b:
                 run.mismatch("value:load_coords", impl.lines[obj["i"][1]], iout[obj["i"][1]][:200], mout[obj["m"][1]][:200])
+        elif kind == "session":
+            judge_session(run, obj, impl.lines, iout, mod.lines, mout)
         elif kind == "history":
             judge_history(run, obj, i, impl.lines, iout, mod.lines, mout)
         elif kind == "plruns":
@@ -1076,6 +1138,30 @@ def run_resilient(exe, lines, env=None):
         start = k + 1
     out += ["crash"] * (len(lines) - len(out))
     return out[:len(lines)], crashes
+
+
+def judge_session(run, obj, ilines, iout, mlines, mout):
+    run.count("session/%s/%s" % (obj["mode"], ilines[obj["i"][0]][-60:]), True)
+    run.dist("session:" + obj["mode"])
+    lines = [ilines[k] for k in obj["i"]]
+    rep = replay_obj("lines", lines, {"model_lines": [mlines[k] for k in obj["m"]]})
+    outs = [iout[k] for k in obj["i"]]
+    mo = [parse_model(mout[k]) for k in obj["m"]]
+    first = parse_impl(outs[0]); last = parse_impl(outs[2])
+    if obj["mode"] == "delete":
+        if first is None or len(first) != 2 or not close(first[0], mo[0][0]) or not close(first[1], mo[1][0]):
+            run.violation("session:two-variables", "two variables on the same atoms: values %s, definitions %r %r" % (outs[0][:80], mo[0], mo[1]), rep); return
+        if not outs[1].startswith("ok"):
+            run.violation("session:delete", "deleting the second variable fails: %s" % outs[1][:80], rep); return
+        if last is None or len(last) != 1 or not close(last[0], mo[2][0]):
+            run.violation("session:value-after-delete", "after deleting the other variable that used the same atoms the value is %s, definition %r" % (outs[2][:80], mo[2]), rep)
+    else:
+        if first is None or len(first) != 1 or not close(first[0], mo[0][0]):
+            run.mismatch("value:" + obj["ca"]["comp"], lines[0][:100], outs[0], mo[0]); return
+        if not outs[1].startswith("err"):
+            run.violation("session:bad-config-accepted", "an invalid configuration was accepted in the middle of the session: %s" % outs[1][:80], rep); return
+        if last is None or len(last) != 1 or not close(last[0], mo[1][0]):
+            run.violation("session:value-after-rejected-config", "after a rejected configuration the session reports %s for the existing variable, definition %r (%s)" % (outs[2][:80], mo[1], outs[1][:40]), rep)
 
 
 def judge_history(run, h, i0, ilines, iout, mlines, mout):
